@@ -355,6 +355,22 @@ def build(cfg) -> Built:
         if ent not in ("interval", "quadrilateral", "hexahedron"):
             raise Inapplicable("GLL needs an interval/quadrilateral/hexahedron integration entity")
         md = {"quadrature_rule": "GLL", "quadrature_degree": 3}
+    elif quad in ("cust1", "cust3"):
+        # user-supplied rules on the integration entity that are NOT invariant under the entity's symmetries: one off-centre point / three scattered points
+        if itype in ("ds", "dS") and (cell == "prism" or tdim == 1):
+            raise Inapplicable("custom facet rule: two facet types / point facets")
+        import basix as _bx
+
+        ent = cell if itype == "dx" else _bx.cell.subentity_types(getattr(_bx.CellType, cell))[tdim - 1][0].name
+        ev = np.asarray(_bx.geometry(getattr(_bx.CellType, ent)), dtype=float)
+        cen = ev.mean(axis=0)
+        vol = _bx.cell.volume(getattr(_bx.CellType, ent))
+        if quad == "cust1":
+            cp, cw = (0.55 * ev[0] + 0.45 * cen)[None, :], np.array([0.9 * vol])
+        else:
+            cp = np.array([0.5 * ev[0] + 0.5 * cen, 0.2 * ev[-1] + 0.8 * cen, 0.35 * ev[len(ev) // 2] + 0.65 * cen])
+            cw = np.array([0.2, 0.5, 0.3]) * vol
+        md = {"quadrature_rule": "custom", "quadrature_points": np.ascontiguousarray(cp), "quadrature_weights": cw}
     elif quad in ("two", "two1", "mix2", "same2"):
         md = None  # handled below
     elif quad != "auto":
